@@ -122,6 +122,9 @@ def check(db, rep):
     r1 = rep.rule('r1', 'REFRESH: every write of a watched storage part is followed on every path to a success exit by the refreshes that kind of write requires', 20)
     refresh_rule(db, rep, r1, M, ((SCHEMA, _classify_schema, _families_schema), (THES, _classify_thes, _families_thes)))
     _rest(db, rep, M)
+    r7 = rep.rule('r7', 'RESET-COMPLETE / FORMS-FOLLOW-TEXT: ParsingInfo::Reset (interpreted) leaves every field of the record as a new record has it; LexicalTerm drops its cached word forms on every path of every method that re-resolves or replaces its text', 2)
+    reset_complete_rule(db, r7)
+    forms_follow_text_rule(db, r7)
     r6 = rep.rule('r6', 'AUDIT-ON-RESET-STATE: the incremental re-analysis audits constituents in the state the from-scratch analysis audits them in - the parse records of the edited constituent and all its dependants are cleared before any of them is audited', 2)
     stale_audit_rule(db, r6)
     # the incremental graph maintenance the schema relies on (shared with C14 r6 / r1): a per-constituent update must drop the old edges
@@ -497,3 +500,71 @@ def stale_audit_rule(db, rule):
             rule.ok(inst, 'every ParseCst call is preceded by %s' % ok_by, '%s:%d' % (f.file, f.line))
         else:
             rule.violation(inst, '%s:%d' % (f.file, f.line), '%s audits a constituent while the parse records of its dependants (and its own) still hold the results of the previous definition: `D1 := X1`, `D2 := D1`, then D1 := D2∪D2 is checked against the old type of D2 and both stay VERIFIED (a fresh analysis marks both INCORRECT); D1 := ℬ(D1) is accepted against its own old type' % inst)
+
+
+def reset_complete_rule(db, rule):
+    """(shared with C03) ParsingInfo::Reset interpreted on a record whose every field holds something: afterwards each field equals the field
+    of a default-constructed record. The re-analysis resets a record and then writes only what the new check produced (SaveInfoTo writes the
+    argument list only when there is one), so a field the reset forgets survives from the previous definition."""
+    from engine.evalmini import Interp, Obj, OutOfFragment
+    cls = S + 'ParsingInfo'
+    f = db.fn(cls + '::Reset', required=False)
+    rec = db.records.get(cls)
+    if f is None or rec is None or not rec.get('fields'):
+        rule.broken('anchor vanished: ParsingInfo::Reset')
+        return
+    try:
+        fresh = Interp(db).default_construct(cls)
+        o = Obj(__cls__=cls)
+        for i, fld in enumerate(rec['fields']):
+            o[fld['name']] = Obj(sentinel=i) if ('optional' in fld['type'] or 'Ptr' in fld['type'] or 'ptr' in fld['type']) else 7 + i
+        Interp(db).call(f, [], o)
+    except OutOfFragment as e:
+        rule.broken('ParsingInfo::Reset outside the evaluable fragment: %s' % e)
+        return
+    left = [fld['name'] for fld in rec['fields'] if o.get(fld['name']) != fresh.get(fld['name'])]
+    if left:
+        rule.violation('ParsingInfo::Reset', '%s:%d' % (f.file, f.line), 'Reset leaves %s as it was: a function that becomes invalid (or a term that used to be a function) keeps the argument list / type / tree of its previous definition, '
+                       'which a schema built from the same content does not report' % ', '.join(left))
+    else:
+        rule.ok('ParsingInfo::Reset', 'all %d fields equal those of a new record' % len(rec['fields']), '%s:%d' % (f.file, f.line))
+
+
+def forms_follow_text_rule(db, rule):
+    """LexicalTerm caches inflected forms of its resolved text. Every method that re-resolves or replaces the text (calls a writer of
+    ManagedText on the member `text`) clears the cache on every path to its exit - unconditionally: a comparison of the text before and
+    after through a reference into the text object compares the new text with itself."""
+    from engine.cfgq import success_exits
+    LT = 'ccl::lang::LexicalTerm'
+    ms = [f for f in db.methods_of(LT) if f.has_cfg()]
+    if not ms:
+        rule.broken('anchor vanished: LexicalTerm (is the cclLang unit loaded?)')
+        return
+    WRITERS = ('UpdateFrom', 'InitFrom', 'SetRaw', 'TranslateRefs', 'TranslateRaw')
+    n_sites = 0
+
+    def direct_clears(g):
+        out = [g.position_of(c) for c in g.calls() if c['k'] == 'CXXMemberCallExpr' and (c.get('cs') or '').split('::')[-1] == 'clear' and 'obj' in c and (g.strip(g.stmts[c['obj']]) or {}).get('member') == 'cachedForms']
+        return [p for p in out if p is not None]
+    # helpers of the class that clear the cache on every path (ClearForms)
+    clearing = {g.name for g in ms if direct_clears(g) and not paths_avoiding(g, [g.graph()[1]], direct_clears(g), success_exits(g, failure_literals=()))}
+    for f in sorted(ms, key=lambda x: x.name):
+        if f.rec.get('ctor') or f.name.split('::')[-1].startswith('operator'):
+            continue
+        writes = [c for c in f.calls() if c['k'] == 'CXXMemberCallExpr' and (c.get('cs') or '').startswith('ccl::lang::ManagedText::') and (c.get('cs') or '').split('::')[-1] in WRITERS
+                  and 'obj' in c and (f.strip(f.stmts[c['obj']]) or {}).get('member') == 'text']
+        if not writes:
+            continue
+        clears = direct_clears(f) + [p for p in (f.position_of(c) for c in f.calls() if c['k'] == 'CXXMemberCallExpr' and any(t.name in clearing and t is not f for t in db.callees(f, c))) if p is not None]
+        exits = success_exits(f, failure_literals=())
+        for c in writes:
+            n_sites += 1
+            inst = 'LexicalTerm::%s' % f.name.split('::')[-1]
+            pos = f.position_of(c)
+            ok = bool(clears) and pos is not None and (not paths_avoiding(f, [pos], clears, exits) or not paths_avoiding(f, [f.graph()[1]], clears, [(pos, '')]))
+            if ok:
+                rule.ok(inst, 'the cached forms are cleared on every path', f.loc(c))
+            else:
+                rule.violation(inst, f.loc(c), '`%s` changes the resolved text and a path reaches the exit without clearing cachedForms: the inflected forms of the previous text are served (a term that mentions a term whose text changed keeps the old word)' % (c.get('txt') or '')[:60])
+    if not n_sites:
+        rule.broken('LexicalTerm has no method that writes its text: the rule has lost its sites')
